@@ -27,6 +27,7 @@
     setdirs <dirs>
     setforce <none|true|false>
     put <module> <content>                 (foreign content at the module's output path)
+    setver <app|py2cpp> <version>          (Versions.app / Versions.py2cpp as seen by later runs)
   listing = `hexpath:hexfirstline` of every existing output, sorted by path, joined by `,`.
 
   The JSON *parser* below belongs to the driver, not to the model (the model takes `json.loads` as a parameter); it is tied to
@@ -355,6 +356,15 @@ def step (st : St) : List String → St × String
   | ["setdirs", dirs] =>
     let st' := { st with w := Tranp.Runner.step st.env st.w (.setDirs (parseList dirs)) }
     (st', obs st' "ok" [] [])
+  | ["setver", which, v] =>
+    -- the application / transpiler version compiled into the program changes (Versions.app / Versions.py2cpp) for later runs
+    if which == "app" then
+      let st' := { st with appVersion := unhexD v }
+      (st', obs st' "ok" [] [])
+    else if which == "py2cpp" then
+      let st' := { st with tVersion := unhexD v }
+      (st', obs st' "ok" [] [])
+    else (st, "bad-op")
   | ["setforce", force] =>
     match parseForce force with
     | some f =>
